@@ -264,7 +264,7 @@ func (env *specEnv) evalIdent(e *SExpr) sval {
 	}
 	fv := env.fv
 	if g, ok := env.cur.ghost[e.Name]; ok {
-		return mathVal(g)
+		return sval{g, nil}
 	}
 	if obj := env.pkg.Scope().Lookup(e.Name); obj != nil {
 		switch o := obj.(type) {
